@@ -156,6 +156,12 @@ def negative_control(res, prop, trace_path):
         res.notes.append("negative control skipped: no completed run with a worker call in this trace")
         return
     lines = pick
+    p = os.path.join(V.WORK, f"{prop}.negctl.ndjson")
+    with open(p, "w") as f:
+        for x in lines:
+            f.write(json.dumps(x) + "\n")
+    # the control is run against the layer that follows this code (L1 when L2 drifts)
+    module = "PoolTrace" if V.tlc_trace("PoolTrace", f"PoolTrace_{prop}", p)["accepted"] else "PoolL1Trace"
     bad = [dict(x) for x in lines]
     if prop == "C06":
         idx = next(i for i, x in enumerate(bad) if x.get("ev") == "atomic_rmw")
@@ -165,11 +171,10 @@ def negative_control(res, prop, trace_path):
         idx = next(i for i, x in enumerate(bad) if x.get("ev") == "sched_end")
         bad[idx]["outcome"] = "deadlock"
         expect = "NoDeadlockObserved"
-    p = os.path.join(V.WORK, f"{prop}.negctl.ndjson")
     with open(p, "w") as f:
         for x in bad:
             f.write(json.dumps(x) + "\n")
-    r = V.tlc_trace("PoolTrace", f"PoolTrace_{prop}", p)
+    r = V.tlc_trace(module, f"{module}_{prop}", p)
     ok1 = r.get("violated") == expect
     # dropped event -> rejection
     idx = next(i for i, x in enumerate(lines) if x.get("ev") == "recv")
@@ -177,9 +182,9 @@ def negative_control(res, prop, trace_path):
     with open(p, "w") as f:
         for x in dropped:
             f.write(json.dumps(x) + "\n")
-    r = V.tlc_trace("PoolTrace", f"PoolTrace_{prop}", p)
+    r = V.tlc_trace(module, f"{module}_{prop}", p)
     ok2 = (not r["accepted"]) and "rejected_line" in r
-    res.extra["negative_control"] = {"corrupted_field_caught": ok1, "dropped_event_rejected": ok2}
+    res.extra["negative_control"] = {"layer": module, "corrupted_field_caught": ok1, "dropped_event_rejected": ok2}
     if not (ok1 and ok2):
         raise V.ToolError(f"negative control not caught: {ok1} {ok2}")
 
